@@ -218,8 +218,24 @@ def s_param_shadowed_by_iterator(rng, nval):
     return _mk(prog, "parameter_shadowed_by_loop_iterator", rng, nval, edges={"a": list(range(-5, 15))})
 
 
+def s_param_projected(rng, nval):
+    """The body projects a Signal parameter and uses the parameter again; the argument is a computed expression."""
+    types = gen.Types(rng)
+    prog = [["input", "a", types.fresh(), rng.randint(-3, 12)], ["input", "b", types.fresh(), rng.randint(-3, 12)]]
+    t = types.fresh()
+    body = [["sig", "p", ["p", ["v", "x"], t]]]
+    ret = rng.choice([["b", "+", ["v", "p"], ["v", "x"]], ["b", "*", ["v", "x"], ["v", "p"]],
+                      ["b", "-", ["p", ["v", "x"], types.fresh()], ["v", "x"]]])
+    prog.append(["func", "g", [["Signal", "x"]], body, ["p", ret, types.fresh()]])
+    arg = rng.choice([["b", "*", ["v", "a"], ["n", rng.randint(2, 5)]], ["b", "+", ["v", "a"], ["v", "b"]], ["v", "a"]])
+    prog.append(["sig", "r0", ["call", "g", [arg]]])
+    if rng.random() < 0.5:
+        prog.append(["sig", "r1", ["call", "g", [["b", "-", ["v", "b"], ["n", 1]]]]])
+    return _mk(prog, "parameter_projected_and_reused", rng, nval, edges={"a": list(range(-5, 15))})
+
+
 STRATA = [(s_scalar, 4), (s_untyped_result, 2), (s_shadow, 3), (s_entity_param, 2), (s_entity_return, 2),
-          (s_local_memory, 2), (s_nested, 3), (s_in_loop, 2), (s_int_clash, 3), (s_iter_clash, 2), (s_sigparam_clash, 2), (s_param_shadowed_by_iterator, 2)]
+          (s_local_memory, 2), (s_nested, 3), (s_in_loop, 2), (s_int_clash, 3), (s_iter_clash, 2), (s_sigparam_clash, 2), (s_param_shadowed_by_iterator, 2), (s_param_projected, 2)]
 
 
 def gen_cases(tier, seed):
